@@ -5,7 +5,9 @@ import (
 	abcitypes "github.com/tendermint/tendermint/abci/types"
 	"encoding/gob"
 	"io"
+	"io/fs"
 	"os"
+	"time"
 )
 
 // C13 (file protocol kernel only): PersistToDisk must never expose a partially written state
@@ -81,6 +83,15 @@ func vfStubNewEncoder(w io.Writer) *gob.Encoder {
 
 //verif:stub (*encoding/gob.Encoder).Encode
 func vfStubEncode(e *gob.Encoder, v interface{}) error {
+	if vfLive != nil {
+		// what is written is the application itself (or an equal copy): every field, including the
+		// mempool's member set, which only InitChain and a new configuration rebuild
+		a, ok := v.(*ShutterApp)
+		vfAssert(ok, "state-is-encoded-as-a-whole")
+		if ok && a != vfLive {
+			vfAssert(vfSameState(a, vfLive) && a.CheckTxState != nil && vfDeepEq(a.CheckTxState.Members, vfLive.CheckTxState.Members), "the-saved-state-is-the-application-state")
+		}
+	}
 	if a, ok := v.(*ShutterApp); ok && a.CheckTxState != nil {
 		// the mempool bookkeeping of the committed block differs from node to node; what is saved
 		// must be the state every node has after Commit
@@ -120,6 +131,12 @@ func vfStubClose(f *os.File) error {
 
 //verif:stub os.Rename
 func vfStubRename(oldpath, newpath string) error {
+	// a leftover temporary file may be incomplete (the crash can have happened anywhere in the
+	// write): while loading, nothing may be moved over the last complete state file
+	vfAssert(!vfLd.loading || newpath != vfLd.path, "loading-never-replaces-the-state-file")
+	if vfLd.loading {
+		return nil
+	}
 	if vfBool("rename-fails") {
 		vfCrashPoint()
 		return vfErr("rename")
@@ -133,10 +150,40 @@ func vfStubRename(oldpath, newpath string) error {
 	return nil
 }
 
+var vfLive *ShutterApp // the application whose state is being saved
+
+// vfSameState: equality of everything consensus depends on (LastSaved is a wall-clock value)
+func vfSameState(a, b *ShutterApp) bool {
+	return vfDeepEq(a.Configs, b.Configs) && vfDeepEq(a.DKGMap, b.DKGMap) && vfDeepEq(a.ConfigVoting, b.ConfigVoting) &&
+		a.Gobpath == b.Gobpath && a.LastBlockHeight == b.LastBlockHeight && vfDeepEq(a.Identities, b.Identities) &&
+		vfDeepEq(a.BlocksSeen, b.BlocksSeen) && vfDeepEq(a.Validators, b.Validators) && a.EONCounter == b.EONCounter &&
+		a.DevMode == b.DevMode && vfDeepEq(a.NonceTracker, b.NonceTracker) && a.ChainID == b.ChainID && vfDeepEq(a.ForkHeights, b.ForkHeights)
+}
+
+// vfPopulate gives the application some state that a save must neither lose nor change: a
+// configuration with its mempool member set, key generation instances of old and new eons
+func vfPopulate(app *ShutterApp) {
+	k := vfAny[common.Address]("keyper")
+	app.Configs = []*BatchConfig{{Keypers: []common.Address{k}, Threshold: 1}}
+	app.updateCheckTxMembers()
+	app.EONCounter = vfU64("eoncounter")
+	e := vfU64("old-eon")
+	vfAssume(e <= app.EONCounter)
+	d := NewDKGInstance(*app.Configs[0], e)
+	app.DKGMap[e] = &d
+	app.BlocksSeen[k] = vfU64("block-seen")
+}
+
 func H_C13_persist_file_protocol() {
 	app := NewShutterApp()
+	vfPopulate(app)
+	vfLive = app
+	before := vfDeepCopy(app)
+	defer func() { vfLive = nil }()
 	app.Gobpath = string(vfBytes("gobpath", 4))
+	before.Gobpath = app.Gobpath
 	app.LastBlockHeight = vfI64("height")
+	before.LastBlockHeight = app.LastBlockHeight
 	vfFS.livePath = app.Gobpath
 	vfFSHadLive = vfBool("previous-file-exists")
 	vfFS.live = vfFile{exists: vfFSHadLive, version: 0, complete: true, synced: true}
@@ -144,6 +191,8 @@ func H_C13_persist_file_protocol() {
 	vfFS.leftover, vfFS.leftoverKept = vfBool("leftover-temporary-file"), false
 	err := app.PersistToDisk()
 	vfCrashPoint()
+	// when and whether a node saves depends on its wall clock: saving must not touch the state
+	vfAssert(vfSameState(app, before) && vfDeepEq(app.CheckTxState.Members, before.CheckTxState.Members), "saving-does-not-change-the-application-state")
 	if err == nil {
 		vfAssert(vfFS.live.exists && vfFS.live.version == 1, "successful-save-installs-the-new-file")
 		vfReach("saved")
@@ -155,7 +204,51 @@ func H_C13_persist_file_protocol() {
 
 // ---- loading: a missing file means a fresh application, every other failure is reported ----
 
+// what a loader may find out about a leftover temporary file
+type vfFileInfo struct {
+	size    int64
+	regular bool
+}
+
+func (i vfFileInfo) Name() string { return "shutter.gob.tmp" }
+func (i vfFileInfo) Size() int64  { return i.size }
+func (i vfFileInfo) Mode() fs.FileMode {
+	if i.regular {
+		return 0o600
+	}
+	return fs.ModeDir | 0o700
+}
+func (i vfFileInfo) ModTime() time.Time { return time.Time{} }
+func (i vfFileInfo) IsDir() bool        { return !i.regular }
+func (i vfFileInfo) Sys() any           { return nil }
+
+func vfStat(name string) (os.FileInfo, error) {
+	if vfLd.loading && name != vfLd.path && vfBool("leftover-temporary-file-exists") {
+		sz := vfI64("leftover-size")
+		vfAssume(sz >= 0)
+		return vfFileInfo{size: sz, regular: vfBool("leftover-is-regular")}, nil
+	}
+	if vfLd.loading && name == vfLd.path && vfLd.kind != 0 {
+		return vfFileInfo{size: 1, regular: true}, nil
+	}
+	return nil, vfLd.notExist
+}
+
+//verif:stub os.Stat
+func vfStubStat(name string) (os.FileInfo, error) { return vfStat(name) }
+
+//verif:stub os.Lstat
+func vfStubLstat(name string) (os.FileInfo, error) { return vfStat(name) }
+
+//verif:stub os.Remove
+func vfStubRemove(name string) error {
+	vfAssert(!vfLd.loading || name != vfLd.path, "loading-never-removes-the-state-file")
+	return nil
+}
+
 var vfLd struct {
+	loading     bool
+	path        string
 	kind        int // 0: file missing, 1: open fails otherwise, 2: decode fails, 3: ok
 	notExist    error
 	savedHeight int64
@@ -201,6 +294,8 @@ func H_C13_load_protocol() {
 	vfAssume(vfLd.savedHeight >= 0)
 	vfLd.decoded = false
 	path := string(vfBytes("gobpath", 4))
+	vfLd.loading, vfLd.path = true, path
+	defer func() { vfLd.loading = false }()
 	app, err := LoadShutterAppFromFile(path)
 	switch vfLd.kind {
 	case 0:
